@@ -188,6 +188,10 @@ def _check_fit2d_rows(ctx, truth, valid, flux, error, info, witness, keyp, idx):
         n_viol += int(np.sum(badside & ~near))
         n_sat += int(np.sum(~badside & ~near))
     eps_r = 1e-13 * (1 + float(np.max(np.abs(rf)))) + float(dl)
+    # ... plus the round-off of forming the residual itself at the reported (A_V, scale): log F - log M - A_V k + 2 s is a sum of
+    # terms of magnitude |A_V k| and |2 s| (thousands for sources 30 decades from the models) evaluated in double precision
+    kmax_ = float(np.max(np.abs(np.asarray(kf, float)))) if len(kf) else 0.0
+    eps_r = eps_r + 3e-15 * np.nan_to_num(np.abs(np.asarray(av, float)) * kmax_ + 2 * np.abs(np.asarray(sc, float)), nan=0.0, posinf=0.0, neginf=0.0)[:, None]
     # (the relative term only for finite values: an infinite reported chi^2 must not buy itself an infinite tolerance - it is
     #  accepted below only where the reference itself reaches the '>= 1e30' of an excluded model)
     ctol = 1e-9 * np.where(np.isfinite(chi), np.abs(chi), 0.0) + np.asarray(np.sum(wf * (2 * np.abs(res) * eps_r + eps_r ** 2), axis=1), float) + 1e-300
